@@ -497,7 +497,7 @@ def run(ctx, report: Report) -> None:
                          f'escape() returns {w2!r} unchanged although it contains a backslash, which decodes differently')
 
     # ---- R3: decode(encode(c)) == c ----------------------------------------------------------------------------
-    r3 = report.rule('C10-R3', 'decoding inverts encoding, class by class', floor=8)
+    r3 = report.rule('C10-R3', 'decoding inverts encoding, class by class', floor=13)
     # decoder tables
     esc = inv.by_name('css_parser.RE_CSS_ESC')
     s = rx.System()
@@ -624,7 +624,7 @@ def run(ctx, report: Report) -> None:
     pattern_handover_table(ctx, r5)
 
     # ---- R6 ----------------------------------------------------------------------------------------------------
-    r6 = report.rule('C10-R6', 'an escaped identifier reaches the IR through one decode and position-based unquoting only', floor=8)
+    r6 = report.rule('C10-R6', 'an escaped identifier reaches the IR through one decode and position-based unquoting only', floor=38)
     from .c09 import decode_pipeline_rule
     decode_pipeline_rule(ctx, r6, r6)
     # only the decode / unquoting findings belong to this property (the case-folding findings are C09/C11 material)
